@@ -1,16 +1,35 @@
 PROP = dict(
     harness="c09", level="exploration",
-    quick=dict(cases=16000, max_size=60, workers=8),
-    thorough=dict(cases=160000, max_size=150, workers=16),
-    rule=("rapidcheck histories of JitAllocator alloc/release/shrink/query/write/reset/statistics over random CreateParams, judged step by step "
-          "by an explicit model of the live spans; a case is non-trivial when a release, shrink or reset was followed by a successful "
+    # quick: per worker ~6 s bounded-exhaustive slice + 5000 random histories (~3.5 ms each)
+    quick=dict(cases=40000, max_size=60, workers=8),
+    # thorough: per worker ~75 s bounded-exhaustive slice + 2250 random histories (~125 ms each, bursts up to 10^5 operations)
+    thorough=dict(cases=36000, max_size=150, workers=16, timeout=5400),
+    rule=("two tiers. (1) bounded-exhaustive: every history of <= 4 (quick; granularity 64) / <= 5 (thorough; granularity 64 and 256) operations over an "
+          "11-symbol alphabet {alloc of 1, 2G+1, B, 2B-2G, 2B-G, 2B+1 bytes; release oldest/newest; shrink oldest to 1 byte / newest by one granule; "
+          "soft reset} for 10 option sets, each on a fresh JitAllocator (counted in evaluations, one per history). (2) rapidcheck state machine: random "
+          "CreateParams (option bits, block size incl. invalid, granularity incl. invalid, fill pattern) x histories of alloc/release/shrink/query/"
+          "write (offset, callback, truncating callback, scope, direct rw)/reset/audit/reuse/rejected calls, plus deterministic bursts of up to "
+          "2500 (quick) / 100000 (thorough) further operations; every step is judged against an explicit model of the live spans, their bytes, the "
+          "blocks (by opaque token) and the statistics. A random case is non-trivial when a release, shrink or reset was followed by a successful "
           "allocation; distinct = distinct case text"),
-    assumptions=["ASan+UBSan build with ASMJIT_ASSERT active"],
+    assumptions=["ASan+UBSan build with ASMJIT_ASSERT active",
+                 "Linux x86-64 sandbox: RWX mappings allowed, memfd dual mapping available, MAP_HUGETLB normally fails (fallback to regular pages is the documented behaviour)",
+                 "of a span larger than 8 KiB only the first and last 2 KiB are tracked byte by byte",
+                 "known findings are excluded only as narrowly as the model can predict them: soft reset with >= 2 blocks is replaced by a hard reset; an "
+                 "allocation that could make an append-only block exactly full is skipped"],
 )
 META = dict(
     engine="rapidcheck",
-    technique="property-based testing: generated allocator histories vs. a reference model of live spans, blocks and statistics",
-    level_text="Exploration.",
-    level_note="",
+    technique="property-based testing (state machine vs. reference model) + bounded-exhaustive enumeration of short histories",
+    level_text=("Exploration: all histories up to depth 4-5 over a small alphabet on 10 option sets, plus tens of thousands of random histories "
+                "(up to 10^5 operations in the thorough tier) over random CreateParams, are executed step by step against a model: non-null, "
+                "granularity-aligned, large-enough spans, disjoint in the rx and the rw view, contents kept until release and identical through both "
+                "views, query() exact for live starts / consistent for interior pointers / rejected for released, shrunk-away and foreign pointers, "
+                "statistics (allocation_count, block_count, used_size incl. per-block padding, reserved_size) exact after every step, fill pattern on "
+                "released / shrunk-away / fresh memory, immediate reuse of freed memory and of gaps without a new block, rejected sizes (0, > 2^31-1), "
+                "rejected out-of-range writes and growing shrinks, empty-block retention policy, residue after release-all / reset. Not a proof."),
+    level_note=("Trusts the harness model (~1000 lines) and ASan/UBSan. The block-level checks use Span::_block as an opaque identity token and "
+                "statistics().block_count(); with multiple pools used_size and the retention limit are bounded, not exact. Six genuine defects were "
+                "found on the unchanged tree (see known_findings.txt); two of them abort the process and are avoided by the generator when listed."),
     design_ref="DESIGN.md section 4, C09",
 )
